@@ -202,7 +202,22 @@ PROFILES = {
     'norem': ('A', 'F', 'Ps', 'S'),
     'fwd': ('A', 'F', 'R', 'S'),
     'deep': ('A', 'R', 'S'),
+    'toggle': ('A', 'R', 'Ps', 'T', 'S'),     # xsd_check switched off and on through the setter between operations
+    # "tail" profiles (name starts with 'x'): the frontier is extended ONLY by successful additions (A / F); every other
+    # operation of the menu (and every failing addition) is executed and judged in each reached state but not
+    # continued.  Reaches states 5-7 additions deep; what is not explored: histories with a removal / replacement /
+    # failing call / serialisation in the MIDDLE (those are the ordinary profiles' business, at their smaller depth).
+    'xfull': ('A', 'F', 'R', 'Xs', 'P', 'S'),
+    'xaddrem': ('A', 'F', 'R', 'Xn', 'S'),
+    'xaddrem-noS': ('A', 'F', 'R', 'Xn'),
+    'xmisuse': ('A', 'F', 'R', 'Xs', 'P', 'X', 'S'),
+    'xfail': ('A', 'F', 'R', 'Xs', 'P', 'X', 'At', 'S'),
+    'xser': ('A', 'F', 'R', 'Xs', 'P', 'Sc', 'S'),
 }
+
+
+def is_tail(profile):
+    return profile.startswith('x')
 
 _bad_attr = {}
 
@@ -270,6 +285,8 @@ def ops_for(T, names, model_idx, profile, sigma, foreign=None):
             ops.append(('Fx', a, 99))
             ops.append(('Fx', a, mult[a]))         # exactly one past the last same-name leaf
             ops.append(('Fx', a, -mult[a] - 1))
+    if 'T' in kinds:
+        ops += [('T', False), ('T', True)]
     if 'At' in kinds:
         ops += failing_attr_ops(T)
     if 'Sc' in kinds:
@@ -293,17 +310,18 @@ def pick_foreign(T):
 
 class Pre:
     """what the oracles may know about the state before the transition"""
-    __slots__ = ('names', 'model', 'hist')
+    __slots__ = ('names', 'knames', 'model', 'hist')
 
     def __init__(self, st, hist):
         self.names = st.names()
+        self.knames = st.knames()     # for violation keys: a child placed with forward=k is written 'name@k'
         self.model = list(st.model)
         self.hist = hist
 
 
 class _FakePre:
     def __init__(self, h):
-        self.hist, self.names, self.model = h, [], []
+        self.hist, self.names, self.knames, self.model = h, [], [], []
 
 
 class Spec:
@@ -316,6 +334,7 @@ class Spec:
         self.sigma = sigma if sigma is not None else reduced_alphabet(T)
         self.foreign = pick_foreign(T)
         self.key = '%s/%s%s' % (T, profile, '' if check else '!unchecked')
+        self.tag = None
 
 
 CHUNK = 60
@@ -340,7 +359,10 @@ def _expand(arg):
         pre = Pre(st, h)
         o = apply(st, op, spec.child_mode)
         if want_g:
-            out.append((G(st), st.names(), list(st.model)))
+            if is_tail(spec.profile) and not (op[0] in ('A', 'F') and o.ok):
+                out.append((None, [], []))     # judged, not continued
+            else:
+                out.append((G(st), st.names(), list(st.model)))
         orc(spec.T, pre, op, st, o)
     return out, col.vio, dict(col.stats)
 
@@ -400,6 +422,8 @@ def run_bfs(specs, factories):
             items = d['pending'][i:i + CHUNK]
             for (h, op), (g, names, midx) in zip(items, out):
                 d['transitions'] += 1
+                if g is None:
+                    continue
                 if g not in d['seen']:
                     d['seen'].add(g)
                     nxt[key].append((h + (op,), names, midx))
@@ -418,6 +442,13 @@ def run_bfs(specs, factories):
         sp = d['spec']
         items = [(h, op) for (h, _, _) in d['frontier'] for op in (('S', False), ('S', True))] \
             if 'S' in PROFILES[sp.profile] else []
+        if is_tail(sp.profile):
+            # tail profiles: the deepest states also get every non-addition operation once (if that fits the budget)
+            full = [(h, op) for (h, names, midx) in d['frontier']
+                    for op in ops_for(sp.T, names, midx, sp.profile, sp.sigma, sp.foreign) if op[0] not in ('A', 'F')]
+            if len(full) <= sp.budget:
+                items = full
+                d['closing_full_menu'] = True
         d['pending'] = items
         for i in range(0, len(items), CHUNK * 2):
             tasks.append((key, i, (sp, items[i:i + CHUNK * 2], False)))
@@ -430,8 +461,9 @@ def run_bfs(specs, factories):
     out = {}
     for key, d in S.items():
         sp = d['spec']
-        out[key] = {'T': sp.T, 'profile': sp.profile + ('' if sp.check else '!unchecked'), 'depth': d['depth'], 'states': len(d['seen']),
+        out[key] = {'T': sp.T, 'profile': (sp.tag or sp.profile) + ('' if sp.check else '!unchecked'), 'depth': d['depth'], 'states': len(d['seen']),
                     'transitions': d['transitions'] + d['closing'], 'per_level': d['per_level'],
                     'capped_by_budget': d['capped'], 'sigma': len(sp.sigma), 'sigma_full': len(nfa(sp.T).alphabet),
-                    'frontier_left': len(d['frontier']), 'vio': d['vio'], 'ostats': dict(d['ostats'])}
+                    'frontier_left': len(d['frontier']), 'vio': d['vio'], 'ostats': dict(d['ostats']),
+                    'closing_full_menu': d.get('closing_full_menu', False)}
     return out
